@@ -1,9 +1,14 @@
 (* Extraction of the executable model and the spec oracles (ExtrOcamlBasic only). *)
 From Coq Require Import ZArith List.
 From Coq Require Extraction ExtrOcamlBasic.
-From WS Require Import Base.Res Base.Bytes Base.GenPrelude Spec.Utf8 Gen.GenUtils.
+From WS Require Import Base.Res Base.Bytes Base.GenPrelude Spec.Utf8 Spec.Frame Proofs.FastOracle Gen.GenUtils Gen.GenAbnf
+  Model.Send.
 Extraction Language OCaml.
 Extraction "core_full.ml"
   exn_eqb is_ok Z.add Z.mul Z.div Z.modulo Z.opp Z.abs Z.of_nat Z.to_nat Z.eqb Z.ltb
   wf_utf8 utf8_encode
-  validate_utf8 decode_step.
+  decode_fast decode_all_fast encode_fast
+  validate_utf8 decode_step
+  abnf_validate abnf_format is_valid_close_status parse_header length_need length_decode mask_need
+  strict_shortage strict_continue strict_request strict_step strict_finish mask_bigint
+  format_frame ws_send_frame close_body.
